@@ -242,6 +242,12 @@ class LBCheck(BaseCheck):
       elif set(heap_eps) & idle:
         violate('membership:active-and-idle', 'endpoints both active and idle: %r' % (
           sorted(map(str, set(heap_eps) & idle)),), {})
+      elif [n for n in lb._heap[1:] if getattr(n.channel, 'ep', n.endpoint) != n.endpoint]:
+        # what a member is called and where its channel connects to must be the same thing
+        bad = [n for n in lb._heap[1:] if getattr(n.channel, 'ep', n.endpoint) != n.endpoint]
+        violate('membership:channel-of-other-endpoint', 'the balancer\'s entry for member %s dispatches over a channel '
+                'that was created for %s (server set %r)' % (bad[0].endpoint, bad[0].channel.ep, sorted(map(str, truth))),
+                {'target_in_server_set': bad[0].channel.ep in truth})
       elif eligible != truth:
         violate('membership:differs', 'balancer can dispatch to %r, server set is %r' % (
           sorted(map(str, eligible)), sorted(map(str, truth))),
